@@ -1,9 +1,9 @@
-\* C17(a) leg A quick: 2 concurrent requests x 2 stores, open failures, early return, pool drops; Close gives back once
+\* C17(a) leg A quick: 2 concurrent requests x 2 stores, early return, pool drops; Close gives back once
 SPECIFICATION Spec
 CONSTANTS NReq = 2
           NStores = 2
           Idempotent = TRUE
-          MayFailOpen = TRUE
+          MayFailOpen = FALSE
 INVARIANTS C17_ReturnedAtMostOnce C17_NeverShared
 PROPERTY C17_TraceClausesHold
 CHECK_DEADLOCK TRUE
